@@ -32,7 +32,7 @@ def run(tier, vd):
         return False
     canary_check(vd, "NeighTrace", files[0], mut, "N1", "c16.N1", max_runs=80)
     vd.cov["exhaustive"] = True
-    vd.assumptions += ["IPv4/ARP on Ethernet; NDISC and IEEE 802.15.4 are exercised by the 6LoWPAN world only", "discovery spacing is judged per target (the code rate-limits globally, which is stricter)",
+    vd.assumptions += ["IPv4/ARP on Ethernet; NDISC and IEEE 802.15.4 are exercised by the 6LoWPAN world only", "discovery spacing is judged globally: any two ARP requests are at least 1 s apart (the literal reading of the statement)",
                        "any frame from a neighbor counts as confirming traffic (the code refreshes on unicast ones only)"]
 
 
